@@ -23,7 +23,7 @@ from fimverif.engines.refmodel import RefStore, ModelRaise, UNSPEC
 from fimverif.props import c05
 
 ID = "C04"
-RULE = ("Hypothesis-generated histories of 1-25 (thorough: 60) operations over graph ids g0..g3 on one store (both "
+RULE = ("Hypothesis-generated histories of 1-25 (thorough: 60) operations over graph ids g0..g3, g10, g (look-alike ids) on one store (both "
         "flavours): imports from string/file/direct of 2-3 generated small graphs in GraphML and JSON node-link whose "
         "own node keys are integers from 1 (colliding with stored internal ids) or strings, node/link mutations, "
         "whole-graph property updates, delete (via graph object / importer), delete-all, clone. Oracle: reference "
@@ -38,7 +38,8 @@ BUDGET = {"quick": 3500, "thorough": 40000}
 MIN_LABEL_FRACTION = {"nontrivial": 0.4, "reimport-existing": 0.15, "delete-then-reimport": 0.05,
                       "clone-then-mutate": 0.03, "disjoint": 0.3, "collide-import": 0.2}
 
-GIDS = ["g0", "g1", "g2", "g3"]
+# ("g1" is a prefix of "g10", "g" a substring of every id: ids are compared, never searched)
+GIDS = ["g0", "g1", "g2", "g3", "g10", "g"]
 IDS = ["a", "b", "c", "d"]      # ("e", "f", "h" are only used for nodes added right after an import)
 CLS = ["X", "Y"]
 RELS = ["r", "s"]
@@ -46,7 +47,7 @@ PNAMES = ["p", "q", "Name", "Type"]
 VALS = [1, "v", "w", 22, ""]
 
 _gid = st.sampled_from(GIDS)
-_gid2 = st.sampled_from(["g0"] * 5 + ["g1"] * 4 + ["g2"] * 2 + ["g3"])       # bias towards g0/g1
+_gid2 = st.sampled_from(["g0"] * 5 + ["g1"] * 4 + ["g2"] * 2 + ["g3", "g10", "g10", "g"])    # bias towards g0/g1
 _nid = st.sampled_from(IDS)
 _pn = st.sampled_from(PNAMES)
 _v = st.sampled_from(VALS)
@@ -84,7 +85,7 @@ def _op(draw, ndesc):
     if k == "import_bad":
         return [k, g, draw(st.integers(0, ndesc - 1)), draw(st.sampled_from(["graphml", "json"])), draw(st.integers(0, 3))]
     if k == "clone":
-        return [k, g, draw(st.sampled_from(["g1", "g2", "g2", "g3", "g0"]))]
+        return [k, g, draw(st.sampled_from(["g1", "g2", "g2", "g3", "g0", "g10", "g"]))]
     if k in ("delete_graph", "delete_graph_imp"):
         return [k, g]
     if k == "delete_all":
